@@ -8,6 +8,6 @@ mkdir -p out evidence
 # libFuzzer targets (used by the thorough tier of C12, C13, C14, C20 only); a failure here does not
 # affect the quick tier
 if [ -f harness/fuzz/Cargo.toml ]; then
-  (cd harness && cargo +nightly fuzz build 2>&1 | tail -3) || echo "fuzz targets did not build (thorough tier runs without the libFuzzer campaigns)"
+  (cd harness && cargo +nightly fuzz build -s none 2>&1 | tail -3) || echo "fuzz targets did not build (thorough tier runs without the libFuzzer campaigns)"
 fi
 echo "setup ok"
